@@ -153,50 +153,55 @@ impl StripModel {
         if let Some(&b) = output.iter().find(|&&b| FORBIDDEN(b)) {
             return Err(format!("output contains forbidden control byte 0x{b:02x}"));
         }
-        fn go(m: StripModel, input: &[u8], output: &[u8], first_err: &mut Option<String>) -> Option<StripModel> {
-            let Some((&b, rest)) = input.split_first() else {
-                if output.is_empty() {
-                    return Some(m);
+        // candidates (model state, output bytes matched so far), in priority order (emission preferred);
+        // iterative so that inputs of any length are fine, duplicates are merged (first occurrence wins)
+        let mut cands: Vec<(StripModel, usize)> = vec![(*self, 0)];
+        for &b in input {
+            let mut next: Vec<(StripModel, usize)> = Vec::with_capacity(cands.len() + 1);
+            for &(m, pos) in &cands {
+                if output.get(pos) == Some(&b) {
+                    let mut m2 = m;
+                    if m2.step(b, true).is_ok() && !next.contains(&(m2, pos + 1)) {
+                        next.push((m2, pos + 1));
+                    }
                 }
-                if first_err.is_none() {
-                    *first_err = Some(format!("output has {} surplus byte(s) {:02x?}", output.len(), output));
+                let mut m2 = m;
+                if m2.step(b, false).is_ok() && !next.contains(&(m2, pos)) {
+                    next.push((m2, pos));
                 }
-                return None;
-            };
-            if output.first() == Some(&b) {
+            }
+            cands = next;
+            if cands.is_empty() {
+                break;
+            }
+        }
+        if let Some(&(m, _)) = cands.iter().find(|c| c.1 == output.len()) {
+            *self = m;
+            return Ok(());
+        }
+        // no assignment is accepted: explain along the preferred path (emit whenever the output has the byte)
+        let mut first_err: Option<String> = None;
+        let (mut m, mut pos) = (*self, 0usize);
+        for (i, &b) in input.iter().enumerate() {
+            if output.get(pos) == Some(&b) {
                 let mut m2 = m;
                 match m2.step(b, true) {
                     Ok(_) => {
-                        if let Some(r) = go(m2, rest, &output[1..], first_err) {
-                            return Some(r);
-                        }
+                        m = m2;
+                        pos += 1;
+                        continue;
                     }
                     Err(e) => {
-                        if first_err.is_none() {
-                            *first_err = Some(e);
-                        }
+                        first_err.get_or_insert(format!("at input offset {i}: {e}"));
                     }
                 }
             }
-            let mut m2 = m;
-            match m2.step(b, false) {
-                Ok(_) => go(m2, rest, output, first_err),
-                Err(e) => {
-                    if first_err.is_none() {
-                        *first_err = Some(e);
-                    }
-                    None
-                }
+            if let Err(e) = m.step(b, false) {
+                first_err.get_or_insert(format!("at input offset {i}: {e}"));
+                break;
             }
         }
-        let mut first_err = None;
-        match go(*self, input, output, &mut first_err) {
-            Some(m) => {
-                *self = m;
-                Ok(())
-            }
-            None => Err(first_err.unwrap_or_else(|| "output does not match the visible text".into())),
-        }
+        Err(first_err.unwrap_or_else(|| format!("output has {} surplus byte(s) {:02x?}", output.len() - pos, &output[pos..output.len().min(pos + 16)])))
     }
 
     /// The strictly expected output for input that is known to be well-formed
